@@ -296,22 +296,30 @@ def builtin(ex, st, fr, name, a, x, work):
     if name == '_ZSt29_Rb_tree_insert_and_rebalancebPSt18_Rb_tree_node_baseS0_RS_':
         S.add('std::_Rb_tree_insert_and_rebalance -> BST insert without rebalancing (same lookups and in-order iteration)')
         left = a[0]; xn = a[1]; p = a[2]; h = a[3]
-        def fld(n, k): return Ptr(n.obj, n.off + k)          # color@0 parent@8 left@16 right@24
+        def fldp(n, k): return Ptr(n.obj, n.off + k)          # color@0 parent@8 left@16 right@24
         def same(u, v): return u.obj == v.obj and u.off == v.off
-        ex.store_val(st, fld(xn, 8), PTR(I8), p); ex.store_val(st, fld(xn, 16), PTR(I8), NULL); ex.store_val(st, fld(xn, 24), PTR(I8), NULL); ex.store_val(st, fld(xn, 0), I32, 1)   # every node black, the header stays red
-        if not isinstance(left, bool):
-            if isc(left): left = bool(left & 1)
-            else: raise Violation('unsupported', 'symbolic insert side in rb-tree', st)
-        if left:
-            ex.store_val(st, fld(p, 16), PTR(I8), xn)
-            if same(p, h): ex.store_val(st, fld(h, 8), PTR(I8), xn); ex.store_val(st, fld(h, 24), PTR(I8), xn)
+        def do_insert(state, lft):
+            ex.store_val(state, fldp(xn, 8), PTR(I8), p); ex.store_val(state, fldp(xn, 16), PTR(I8), NULL); ex.store_val(state, fldp(xn, 24), PTR(I8), NULL)
+            ex.store_val(state, fldp(xn, 0), I32, 1)   # every node black, the header stays red
+            if lft:
+                ex.store_val(state, fldp(p, 16), PTR(I8), xn)
+                if same(p, h): ex.store_val(state, fldp(h, 8), PTR(I8), xn); ex.store_val(state, fldp(h, 24), PTR(I8), xn)
+                else:
+                    lm = ex.load_val(state, fldp(h, 16), PTR(I8))
+                    if same(p, lm): ex.store_val(state, fldp(h, 16), PTR(I8), xn)
             else:
-                lm = ex.load_val(st, fld(h, 16), PTR(I8))
-                if same(p, lm): ex.store_val(st, fld(h, 16), PTR(I8), xn)
-        else:
-            ex.store_val(st, fld(p, 24), PTR(I8), xn)
-            rm = ex.load_val(st, fld(h, 24), PTR(I8))
-            if same(p, rm): ex.store_val(st, fld(h, 24), PTR(I8), xn)
+                ex.store_val(state, fldp(p, 24), PTR(I8), xn)
+                rm = ex.load_val(state, fldp(h, 24), PTR(I8))
+                if same(p, rm): ex.store_val(state, fldp(h, 24), PTR(I8), xn)
+        if isinstance(left, bool): do_insert(st, left); return 0
+        if isc(left): do_insert(st, bool(left & 1)); return 0
+        cnd = ex.tobool(left); ncnd = z3.Not(cnd)
+        ma = ex.sat(st, cnd); mb = ex.sat(st, ncnd)
+        if ma is not None and mb is not None:
+            ex.fork_ret(st, x, ncnd, 0, work, post=lambda o: do_insert(o, False)); ex.assume(st, cnd); do_insert(st, True)
+        elif ma is not None: ex.assume(st, cnd); do_insert(st, True)
+        elif mb is not None: ex.assume(st, ncnd); do_insert(st, False)
+        else: return 'infeasible'
         return 0
     if name in ('_ZSt18_Rb_tree_incrementPSt18_Rb_tree_node_base', '_ZSt18_Rb_tree_incrementPKSt18_Rb_tree_node_base',
                 '_ZSt18_Rb_tree_decrementPSt18_Rb_tree_node_base', '_ZSt18_Rb_tree_decrementPKSt18_Rb_tree_node_base'):
